@@ -256,8 +256,10 @@ def judgeC12 (op : DoOp) (out : String) : Expect :=
   if boundaries.any (fun n => n ≥ 4 && n < got.length && endsWithSpecCrc (got.take n)) then .noPanic else
   -- what arrived has an inconsistent trailer (this covers every corruption, truncation and extension)
   let o := outcomeOf out
-  -- neither wrapped in a ClientError (recognised in the read loop) nor returned by the parser
-  .pred (o.startsWith "err" && (o.splitOn "excR").length == 1 && (o.splitOn "excT").length == 1)
+  -- neither wrapped in a ClientError (recognised in the read loop) nor returned by the parser, nor an error that
+  -- `errors.As` matches against an exception type
+  .pred (o.startsWith "err" && (o.splitOn "excR").length == 1 && (o.splitOn "excT").length == 1 &&
+         (o.splitOn "AS-VALUE-TARGET-MATCHES").length == 1)
     "a reply whose CRC does not match must not be returned as a response or as a device exception"
 
 /-- C19: the hooks see exactly what the transport saw -/
@@ -311,7 +313,9 @@ def parseDorOp (ts : List String) : Option DorOp :=
 def DorOp.modelOut (op : DorOp) : String := outcomeOf op.inner.modelOut
 
 def DorOp.judge (prop : String) (op : DorOp) (out : String) : Expect :=
-  if prop == "C07" then judgeC07 op.inner out else .noPanic
+  if prop == "C07" then judgeC07 op.inner out
+  else if prop == "C12" then judgeC12 op.inner out
+  else .noPanic
 
 def DorOp.kf (prop : String) (op : DorOp) : Option String := if prop == "C07" then kfC07 op.inner else none
 
